@@ -73,7 +73,7 @@ func (g *Gen) Token() string {
 	return fmt.Sprintf("zq%dx%s", g.serial, g.letters(g.rng(5, 7)))
 }
 
-var dressings = []string{"ascii", "ascii", "ascii", "space", "unicode", "astral", "dollar", "digits", "escape", "html", "long", "empty", "jsonish", "b64ish", "upper", "pad", "pademail", "bslash", "addr"}
+var dressings = []string{"ascii", "ascii", "ascii", "space", "unicode", "astral", "dollar", "digits", "escape", "html", "long", "empty", "jsonish", "b64ish", "upper", "pad", "pademail", "bslash", "addr", "lookalike"}
 
 // SensString returns the contents of a sensitive ordinary string.
 func (g *Gen) SensString() string {
@@ -120,6 +120,10 @@ func (g *Gen) Dress(d string) string {
 		return ""
 	case "jsonish":
 		return `{"` + t + `":[1,"x"]}`
+	case "lookalike":
+		// text that contains what looks like JSON / shell-syntax tokens between delimiters (a $where body, an
+		// error text pasted into a field): inside a string literal it is just characters
+		return t + g.pick(` return {ratio:NaN}`, ` [1,Infinity]`, `,NaN,`, ` {"a":-Infinity,"b":NaN}`, ` :null}`, ` [NaN]`, ` {x:undefined}`, ` ,true,`, ` /* c */ // d`, ` \u0041\n`, ` 1e400,-0`, ` {"$date":1}`, ` }{ ][`)
 	case "b64ish":
 		return base64.StdEncoding.EncodeToString([]byte(t + t))
 	case "upper":
